@@ -1,4 +1,4 @@
-//go:build c20
+//go:build c19 || c20
 
 package streams
 
